@@ -1267,12 +1267,17 @@ impl Tuple {
             return Ok(());
         }
 
+        self.set_xmax(Some(xid));
+        Ok(())
+    }
+
+    /// Overwrites the delete mark: [None] revives the tuple. Used where the transaction that had
+    /// marked the tuple is known to have aborted (a later delete, VACUUM).
+    pub(crate) fn set_xmax(&mut self, xid: Option<TransactionId>) {
         let buffer = self.data.effective_data_mut();
         let (mut header, _) = TupleHeader::read_from(buffer, 0);
-        header.xmax = xid as i64;
+        header.xmax = xid.map(|v| v as i64).unwrap_or(-1);
         header.write_to(buffer, 0);
-
-        Ok(())
     }
 
     /// Vacuums the tuple by removing all delta versions that are no longer needed
